@@ -4,6 +4,7 @@ package clos
 
 import (
 	"github.com/ohler55/slip"
+	"github.com/ohler55/slip/pkg/generic"
 )
 
 func defSlotValue() {
@@ -64,7 +65,7 @@ func (f *SlotValue) Call(s *slip.Scope, args slip.List, depth int) (result slip.
 // and the readers and accessors defined by defclass do.
 func slotUnbound(s *slip.Scope, inst slip.Instance, sym slip.Symbol, depth int) (result slip.Object) {
 	result = slip.Unbound
-	if fi := slip.FindFunc("slot-unbound"); fi != nil {
+	if fi := slip.FindFunc("slot-unbound", &generic.Pkg); fi != nil {
 		args := slip.List{
 			slip.FindClass(string(inst.Hierarchy()[0])),
 			inst,
